@@ -556,6 +556,21 @@ func checkC13(e *Env) {
 		runSequence(fmt.Sprintf("prelude(%s,%d)", pl.name, l), g, 1)
 	})
 
+	// (a3) every ordered pair of first-used entropy sizes / word counts
+	parallel(25, e.Workers, func(j int) {
+		a, b := j/5, j%5
+		g := &seqGen{e: e, r: rng.New(e.Seed, fmt.Sprintf("C13-sizes-%d-%d", a, b)), bufs: map[int][]byte{}}
+		l1, l2 := g.r.Intn(ref.NLang), g.r.Intn(ref.NLang)
+		for _, si := range []int{a, b, a, 4 - a, b} {
+			ent := g.r.Bytes(ref.EntSizes[si])
+			g.add(plan.Op{Fn: "enc", L: int64(l1), E: hx(ent), Keep: true})
+			g.add(plan.Op{Fn: "chkval", L: int64(l1), S: hxs(e.Model.Enc(ent, l1))})
+			g.add(plan.Op{Fn: "new", L: int64(l2), N: int64(ref.WordCounts[si]), Src: &plan.Src{Data: hx(g.r.Bytes(40))}, Keep: true})
+			g.add(plan.Op{Fn: "chk", L: int64(l2), S: hxs(e.Model.Enc(g.r.Bytes(ref.EntSizes[si]), l2))})
+		}
+		runSequence(fmt.Sprintf("sizes(%d,%d)", ref.EntSizes[a], ref.EntSizes[b]), g, 1)
+	})
+
 	// (a'') memo-hunting patterns
 	nhunt := e.pick(32, 400)
 	parallel(nhunt, e.Workers, func(h int) {
